@@ -527,7 +527,18 @@ class BaseCurve(Intface_BaseCurve):
         if newknotvector == self.knotvector:
             return
         if self.ctrlpoints is None:
+            if self.weights is None:
+                self.__knotvector = newknotvector
+                return
+            # The weights are the control points of the weight function
+            temp_curve = self.__class__(self.knotvector, self.weights)
+            temp_curve.update(newknotvector, tolerance, nodes)
+            newweights = tuple(temp_curve.ctrlpoints)
+            if heavy.find_roots(tuple(newknotvector), newweights):
+                raise ValueError("Zero division in the new weights")
+            self.weights = None
             self.__knotvector = newknotvector
+            self.weights = newweights
             return
         if self.knotvector.limits != newknotvector.limits:
             raise ValueError
